@@ -242,13 +242,18 @@ package data
 
 //@ func (*Points).Text
 //@   props C09
+//@   local ps *data.Points#1
+//@   local typ string#1
+//@   local key string#2
 //@   requires ps != nil
 //@   ensures [C09] res0 == findText(*ps, typ, key)
 //@ func (*NodeEdge).ToNode
 //@   props C09
+//@   local n *data.NodeEdge#1
 //@   requires n != nil
 //@   ensures [C09] result.ID == n.ID && result.Type == n.Type && sameSlice(result.Points, n.Points)
 //@ func (*Node).ToUser
 //@   props C09
+//@   local n *data.Node#1
 //@   requires n != nil
 //@   ensures [C09] result.ID == n.ID && result.Email == findText(n.Points, "email", "") && result.Pass == findText(n.Points, "pass", "")
